@@ -129,6 +129,10 @@ def work_focus(item):
         for fn in fns[gi:gi + 6]:
             for kinds, args in apisweep.sweep(h, desc, vals, fn, budget, True):
                 lines += [calls.line(fn, kinds, args)] * T
+                if args and isinstance(args[0], str) and args[0].startswith("g:") and rng.random() < 0.3:
+                    # the same generated cell as a hand-made struct whose volume member was left at 0, shared read-only by all threads
+                    a2 = ["h:" + args[0][2:]] + list(args[1:])
+                    lines += [calls.line(fn, kinds, a2)] * T
         if lines:
             run_mix(st, exe, lines, T, sdir, tag, rng, "focus:" + ",".join(fns[gi:gi + 6]))
             st.cls("focus_mixes")
